@@ -1360,6 +1360,12 @@ func init() {
 			if t2.size() > 40 {
 				continue
 			}
+			if _, sl := t2.expansion(); sl > 60000 {
+				// a chain of distributions can produce a tree whose disjunctive form has millions of alternatives: one call then
+				// takes minutes in the library (the known finding of C14) and far longer in the model's driver
+				count("skipped_large_expansion")
+				continue
+			}
 			e1 := t1.render(texts(terms), "", false, rng.Intn(3), true)
 			e2 := t2.render(texts(terms), "", false, rng.Intn(3), rng.Intn(2) == 0)
 			k := &kase{Expr: e1, ExprHex: hx(e1), Tree: t1.prefix(), Terms: texts(terms), Extra: map[string]string{"tree2": t2.prefix(), "expr2": hx(e2), "rewrites": strings.Join(ops, ",")}}
